@@ -94,7 +94,18 @@ func VerifC20Route(v *vrt.T) {
 	err := h.addRawRoute(Route{Method: method, Pattern: BasePath + sub, HandlerFunc: hf, NoGzip: true, NoJSON: true})
 	v.Assert(err == nil, "route added")
 	w := &verifRW{h: http.Header{}}
-	req := &http.Request{Method: method, URL: &url.URL{Path: BasePath + sub, RawQuery: "u=bob&p=" + pass}, Header: http.Header{}}
+	u := &url.URL{Path: BasePath + sub, RawQuery: "u=bob&p=" + pass}
+	// the client may spell any octet of the path percent-escaped (/kapacitor/v1/%74asks):
+	// the server's URL parser keeps that spelling in RawPath next to the decoded Path; it is
+	// the same resource
+	if k := v.Choose("escaped octet", 3); k > 0 {
+		i := len(BasePath) + k // an octet of the route name
+		const hex = "0123456789ABCDEF"
+		c := u.Path[i]
+		u.RawPath = u.Path[:i] + "%" + string([]byte{hex[c>>4], hex[c&15]}) + u.Path[i+1:]
+		v.Assert(u.EscapedPath() == u.RawPath, "harness: the escaped spelling is a valid encoding of the path")
+	}
+	req := &http.Request{Method: method, URL: u, Header: http.Header{}}
 	h.ServeHTTP(w, req)
 
 	var priv auth.Privilege
